@@ -1224,7 +1224,12 @@ func main() {
 	tier := flag.String("tier", "quick", "")
 	out := flag.String("out", "", "")
 	replay := flag.String("replay", "", "")
+	flip := flag.Bool("flip", false, "scenario outside the property: SkipSortDocs switched on between an interrupted seal and the next one")
 	flag.Parse()
+	if *flip {
+		flipScenario(*seed)
+		return
+	}
 	if *replay != "" {
 		// a replay file names seed and tier; the run is deterministic, so re-run it
 		b, err := os.ReadFile(*replay)
@@ -1304,5 +1309,56 @@ func main() {
 	}
 	if err := w.Close(); err != nil {
 		panic(err)
+	}
+}
+
+// flipScenario (not part of the check): a seal without SkipSortDocs is interrupted right after
+// .sdocs was published; the store is restarted WITH SkipSortDocs, seals the fraction, and is
+// restarted once more.
+func flipScenario(seed uint64) {
+	tmp, _ := os.MkdirTemp("", "verif-hC08-flip-")
+	defer os.RemoveAll(tmp)
+	r := rng.New(seed)
+	c := genCorpus(r, 5, false)
+	dir := filepath.Join(tmp, "a")
+	os.MkdirAll(dir, 0o755)
+	s, callErr, err := tracedSeal(dir, c, true, storectl.Req{Op: "seal"})
+	if err != nil || callErr != nil {
+		fmt.Println("traced seal failed:", err, callErr)
+		return
+	}
+	j := 0
+	for i, o := range s.ops {
+		if o.Kind == "rename" && o.G == "Sdocs" {
+			j = i + 1
+		}
+	}
+	d1 := filepath.Join(tmp, "b")
+	if err := s.stateOf(crashSpec{J: j}).Materialize(d1); err != nil {
+		panic(err)
+	}
+	fmt.Println("crash state after .sdocs rename:", sizesOf(s.stateOf(crashSpec{J: j}), s.base))
+	c2 := *c
+	c2.Skip = true
+	ch, _ := storectl.Start("")
+	if _, err := ch.Call(storectl.Req{Op: "open", Dir: d1, SkipSortDocs: true}); err != nil {
+		fmt.Println("open with SkipSortDocs failed:", fatalLine(err.Error()))
+		return
+	}
+	_, err = ch.Call(storectl.Req{Op: "seal"})
+	fmt.Println("seal with SkipSortDocs: err =", err)
+	ch.Close()
+	for _, sk := range []bool{true, false} {
+		d2 := filepath.Join(tmp, fmt.Sprintf("c%v", sk))
+		st, _ := crashfs.Snapshot(d1)
+		st.Materialize(d2)
+		c3 := *c
+		c3.Skip = sk
+		fmt.Println("files before restart:", sizesOf(st, s.base))
+		obs, ch := restartCheck(d2, s.base, &c3, 4)
+		if ch != nil {
+			ch.Close()
+		}
+		fmt.Printf("restart with SkipSortDocs=%v: %+v\n", sk, obs)
 	}
 }
